@@ -133,8 +133,12 @@ impl attr::ParseMultiple for FmtAttribute {}
 impl ToTokens for FmtAttribute {
     fn to_tokens(&self, tokens: &mut TokenStream) {
         self.lit.to_tokens(tokens);
-        self.comma.to_tokens(tokens);
-        self.args.to_tokens(tokens);
+        // A comma after the literal not followed by any arguments (`#[display("text",)]`) is a
+        // trailing one: it shouldn't be emitted, as callers separate the following tokens.
+        if !self.args.is_empty() {
+            self.comma.to_tokens(tokens);
+            self.args.to_tokens(tokens);
+        }
     }
 }
 
